@@ -185,6 +185,8 @@ export const PROBES = [
   { id: "namespace-exports-itself", files: { "entry.ts": 'import * as ns from "./a";\nparse.buildParsers<{ X: typeof ns }>();\n', "a.ts": 'export * as self from "./a";\nexport const x = 1;\n' } },
   { id: "namespaces-export-each-other", files: { "entry.ts": 'import * as ns from "./a";\nparse.buildParsers<{ X: typeof ns; Y: typeof ns.other.back.x }>();\n', "a.ts": 'export * as other from "./b";\nexport const x = 1;\n', "b.ts": 'export * as back from "./a";\nexport const y = "s";\n' } },
   { id: "namespace-re-export-through-star", files: { "entry.ts": 'import * as ns from "./a";\nparse.buildParsers<{ X: typeof ns }>();\n', "a.ts": 'export * from "./b";\nexport * as inner from "./b";\n', "b.ts": 'export * from "./a";\nexport const y = "s";\n' } },
+  { id: "tag-carried-by-every-member", files: { "entry.ts": 'type Base = { id: string };\ntype U = (Base & { type: "CRON" | "EVENT"; c: 1 }) | (Base & { type: "EVENT"; e: 2 });\nparse.buildParsers<{ X: U }>();\n' } },
+  { id: "union-alias-mentions-itself", files: { "entry.ts": 'type B = "b";\ntype C = C | B;\nparse.buildParsers<{ X: Record<C, string> }>();\n' } },
   { id: "entry-missing", files: { "other.ts": "export type A = 1;" } },
   { id: "entry-unparsable", files: { "entry.ts": "type A = {{{" } },
   { id: "crlf-bom", files: { "entry.ts": "﻿type A = {\r\n  a: symbol\r\n};\r\nparse.buildParsers<{ X: A }>();\r\n" } },
